@@ -4,10 +4,11 @@
    Everything here sits on the shared core value model Model/Core.v.
 
    marG nm     : a copy of Core.mar in which the routine of the NoneType member is a parameter nm.
-                   marG (fun x => Ok x)  is Core.mar as it stands   (NoOpMarshaller: echoes every input)
-                   marG none_m           is the REPAIRED routine    (None is emitted, the rest rejected)
-                 mar_fixed := marG none_m is the LOCAL COPY OF THE CHANGED DEFINITION that notes/C06.md asks
-                 the owner of Core.v to adopt (one line: the TNone arm of mar).
+                   marG none_echo  is the PINNED routine (NoOpMarshaller for NoneType: echoes every input),
+                                   kept only for the witnesses of the repaired defect;
+                   marG none_m     is the routine since /repo ae6ba7e (None is emitted, the rest rejected).
+                 mar_fixed := marG none_m is convertible with Core.mar (Proofs/CoreC06.v: mar_is_marG, by
+                 reflexivity), so every theorem about it is a theorem about Core.mar.
    is_wire     : None / bool / int / float / str atoms of the exact builtin classes, list, dict with
                  primitive keys -- nothing else.
    robust_ty   : the routine of the annotation returns wire data on EVERY input it accepts
@@ -68,11 +69,11 @@ Fixpoint marG (fuel : nat) (t : ty) (x : pv) {struct fuel} : res pv :=
 
 End MarG.
 
-(* the repaired NoneType routine: None is emitted as it is, anything else is rejected with ValueError *)
+(* NoneTypeMarshaller: None is emitted as it is, anything else is rejected with ValueError *)
 Definition none_m (rt : runtime) (x : pv) : res pv := if is_none_val rt x then Ok x else Raise EValue.
-(* LOCAL COPY of Core.mar with the TNone arm changed to none_m (see notes/C06.md, "Core.v edit needed") *)
+(* Core.mar in the shape of marG (Proofs/CoreC06.v: mar_is_marG) *)
 Definition mar_fixed (rt : runtime) (E : env) : nat -> ty -> pv -> res pv := marG rt E (none_m rt).
-(* Core.mar as it stands, in the shape of marG (Proofs/CoreC06.v: mar_is_marG) *)
+(* the pinned NoneType routine (NoOpMarshaller), for the witnesses C06_pinned_* only *)
 Definition none_echo (x : pv) : res pv := Ok x.
 
 Section Wire.
